@@ -7,6 +7,7 @@
 #include <thread>
 
 #include "exec.h"
+#include "world_int.h"
 #include "sched.h"
 
 namespace sim
@@ -34,6 +35,7 @@ static std::vector<Plan> splitThreads(const Plan& plan, int n)
             Item c = it;
             if (c.tag == "cfg")
             {
+                c.erase("locale");  // the global locale is process state: not changed while several threads run
                 char buf[8];
                 snprintf(buf, sizeof buf, "C%02d", static_cast<int>(c.get("propn", 1)));
                 s.prop = buf;
@@ -57,8 +59,58 @@ RunResult execThreads(const Plan& plan)
     std::vector<uint64_t> solo(static_cast<size_t>(n));
     std::vector<RunResult> res(static_cast<size_t>(n));
     std::vector<std::function<void()>> bodies;
+    // "cloned start": every thread's workload is begun on this thread, then the objects under test (decoder, encoders,
+    // status tracker) of every thread are replaced by COPIES of one prototype's - made before the threads start -, and
+    // the threads continue from there. Copies are separate instances: they must not share anything.
+    size_t clonePrefix = static_cast<size_t>(std::max<int64_t>(0, plan.cfgGet("clone", 0)));
+    if (clonePrefix)
+    {
+        // only sound when every thread runs the very same workload (the prototype is then in the state each of them expects)
+        auto textOf = [](const Plan& sp)
+        {
+            Plan c = sp;
+            for (auto& it : c.items)
+                it.erase("th");
+            return planToText(c);
+        };
+        const std::string first = textOf(subs[0]);
+        for (int t = 1; t < n; ++t)
+            if (textOf(subs[static_cast<size_t>(t)]) != first)
+                clonePrefix = 0;
+    }
+    std::vector<std::unique_ptr<World>> worlds(static_cast<size_t>(n));
+    if (clonePrefix)
+    {
+        // ... and interrupted between two deliveries: "clonedeliv" of the frames in flight are delivered first, so that
+        // the copies are made in the middle of whatever those frames belong to (a reassembly, say)
+        const size_t cloneDeliv = static_cast<size_t>(std::max<int64_t>(0, plan.cfgGet("clonedeliv", 0)));
+        World proto(subs[0]);
+        proto.runOps(0, clonePrefix);
+        proto.deliverDue(cloneDeliv, clonePrefix);
+        for (int t = 0; t < n; ++t)
+        {
+            auto& w = worlds[static_cast<size_t>(t)];
+            w = std::make_unique<World>(subs[static_cast<size_t>(t)]);
+            w->runOps(0, clonePrefix);
+            w->deliverDue(cloneDeliv, clonePrefix);
+            w->adoptCopiesFrom(proto);
+        }
+        out.probes["cloned-start"] += 1;
+    }
     for (int t = 0; t < n; ++t)
-        bodies.push_back([&res, &subs, t] { res[static_cast<size_t>(t)] = execPlan(subs[static_cast<size_t>(t)]); });
+    {
+        if (clonePrefix)
+            bodies.push_back(
+                [&res, &worlds, t, clonePrefix]
+                {
+                    World& w = *worlds[static_cast<size_t>(t)];
+                    w.runOps(clonePrefix, static_cast<size_t>(-1));
+                    w.finishRun();
+                    res[static_cast<size_t>(t)] = std::move(w.res);
+                });
+        else
+            bodies.push_back([&res, &subs, t] { res[static_cast<size_t>(t)] = execPlan(subs[static_cast<size_t>(t)]); });
+    }
 #if defined(SIM_VARIANT_SCHED)
     sched::Config cfg;
     cfg.seed = static_cast<uint64_t>(plan.cfgGet("schedseed", 1));
